@@ -8,6 +8,7 @@ import AttrsModel.Spec.C19
 import AttrsModel.Proofs.C19Conv
 import AttrsModel.Proofs.C19Misc
 import AttrsModel.Proofs.C19Cmp
+import AttrsModel.Proofs.SrcToBool
 
 namespace Attrs.C19
 open Conv
@@ -379,5 +380,29 @@ theorem C19_model_meets_spec (c : Case) (hwf : wf c = true) (hk : known c = []) 
   | filter c =>
     simp [spec, model, Filt.spec, Filt.model, Filt.listed, Filt.excludeF_eq_not, Filt.includeF_eq_any]
   | cmp c => exact Cmp.model_meets_spec c
+
+/-! ### T1b: `to_bool` as written in /repo's source on this run -/
+
+/-- **C19_source_to_bool_tables**: `converters.to_bool`, translated from the current source (`Gen.to_bool`, regenerated
+    on every run), returns True for every entry of the documented truthy table and False for every entry of the falsy
+    table (the tables T1 extracts and `C19_to_bool_documented` compares with the documentation). -/
+theorem C19_source_to_bool_tables (env : Py.Env) (ext : Py.Ext) :
+    (Generated.toBoolTrue.all fun l => Src.returns (Gen.to_bool env ext (Src.litPV l)) Py.vTrue) = true ∧
+    (Generated.toBoolFalse.all fun l => Src.returns (Gen.to_bool env ext (Src.litPV l)) Py.vFalse) = true :=
+  Src.to_bool_tables env ext
+
+/-- **C19_source_to_bool_case_and_rejects**: … compares strings case-insensitively, and raises ValueError for None,
+    callables, other objects, other ints and other strings. -/
+theorem C19_source_to_bool_case_and_rejects (env : Py.Env) (ext : Py.Ext) :
+    (Src.returns (Gen.to_bool env ext (Py.vStr "TRUE")) Py.vTrue = true ∧
+     Src.returns (Gen.to_bool env ext (Py.vStr "oFF")) Py.vFalse = true) ∧
+    (∀ n, Gen.to_bool env ext (Py.vObj n) = .error .valueError) ∧
+    (∀ n, Gen.to_bool env ext (Py.vFn n) = .error .valueError) ∧
+    Gen.to_bool env ext Py.vNone = .error .valueError ∧
+    Src.raises (Gen.to_bool env ext (Py.vInt 2)) .valueError = true ∧
+    Src.raises (Gen.to_bool env ext (Py.vStr "2")) .valueError = true :=
+  ⟨⟨(Src.to_bool_upper env ext).1, (Src.to_bool_upper env ext).2.2.1⟩, (Src.to_bool_rejects env ext).1,
+   (Src.to_bool_rejects env ext).2.1, (Src.to_bool_rejects env ext).2.2.1, (Src.to_bool_rejects env ext).2.2.2.1,
+   (Src.to_bool_rejects env ext).2.2.2.2.2.1⟩
 
 end Attrs.C19
